@@ -165,6 +165,16 @@ def roundtrip(stack, c, serde_name, key, value, chunks, coll):
             return "get_many(%s) returned keys %r with %r" % (coll, sorted(map(repr, many.keys())), repr(many.get(key))[:80])
         if many[other] not in (b"OTHER", "OTHER"):
             return "get_many returned another key's value for %r: %r" % (other, many[other])
+        # the other ways to store: replace (existing key), cas (with the token just read), add (fresh key) - each followed by a fetch
+        k2 = b"verb-key"
+        steps = [("add", lambda: cl.add(k2, value, noreply=False)), ("replace", lambda: cl.replace(k2, value, noreply=False)),
+                 ("cas", lambda: cl.cas(k2, value, cl.gets(k2)[1], noreply=False))]
+        for verb, store in steps:
+            if store() is not True:
+                return "%s did not report success" % verb
+            gv = cl.get(k2)
+            if gv != want or type(gv) is not type(want):
+                return "after %s(key, value): get returned %r (%s), stored %r (%s)" % (verb, repr(gv)[:80], type(gv).__name__, repr(want)[:80], type(want).__name__)
         # a key named more than once: every present requested key still comes back under itself with its own value
         for fetch in ("get_many", "gets_many"):
             rep = getattr(cl, fetch)([key, key, other, b"absent", other, key])
